@@ -426,8 +426,9 @@ public:
                 if (applymask && !mask[src_y][src_x])
                     continue;
                 auto scaled_px = src_it[src_x];
+                // divide in a signed type: a negative channel converted to std::size_t is a huge positive number
                 static_for_each(scaled_px, [&](channel_t& ch) {
-                    ch = ch / bin_width;
+                    ch = static_cast<channel_t>(ch / static_cast<std::ptrdiff_t>(bin_width));
                 });
                 auto key = key_from_pixel<Dimensions...>(scaled_px);
                 if (!setlimits ||
